@@ -238,7 +238,8 @@ impl G<'_, '_> {
                             E::Bin(op, Box::new(self.expr(K::Bool, depth - 1)), Box::new(self.expr(K::Bool, depth - 1)))
                         }
                         _ => {
-                            let op = *self.ch.pick(&[BinOp::Eq, BinOp::Ne, BinOp::StrictEq, BinOp::StrictNe, BinOp::Lt, BinOp::Le, BinOp::Gt, BinOp::Ge]);
+                            // (`<` is left to a probe of C05: the parser dependency may take it for type arguments)
+                            let op = *self.ch.pick(&[BinOp::Eq, BinOp::Ne, BinOp::StrictEq, BinOp::StrictNe, BinOp::Le, BinOp::Gt, BinOp::Ge]);
                             let kk = *self.ch.pick(&[K::Int, K::Int, K::Double, K::Str, K::Bool]);
                             E::Bin(op, Box::new(self.expr(kk, depth - 1)), Box::new(self.expr(kk, depth - 1)))
                         }
